@@ -44,6 +44,7 @@ def generate(seed: int, tier: str, idx: int) -> dict:
         lay, rev, pv = s.pick(["sparse", "dense"]), s.chance(0.3), s.chance(0.5)
         if s.chance(0.12):
             n, p, r = s.randint(101, 125), 1, 1       # more than a hundred files: the counter outgrows its width
+            lay = "sparse"                             # (a dense run of that length takes half a minute)
     prof = dict(PROFILE, nsteps=(n, n), period=(p, p), p_reversed=1.0 if rev else 0.0,
                 p_numrec=1.0 if r else 0.0, numrec=(max(r, 1), max(r, 1)),
                 p_dense=1.0 if lay == "dense" else 0.0,
